@@ -131,6 +131,19 @@ CHECKS["C13"] = dict(level="model_checking", ref="DESIGN.md §4 C13, §9",
          "a reordering in any other configuration is a violation. Re-dial of a cut link is exercised but the window between loss and re-dial is not controlled.",
     tech="TLA+ model NetOrder model-checked by TLC; recorded per-pair arrival sequences of two real nodes behind a delaying relay validated by TLC against spec/Net.tla")
 
+CHECKS["C14"] = dict(level="model_checking", ref="DESIGN.md §4 C14, §9",
+    text="TLA+ model RemoteRel of one remote link/monitor exchange (relation registered before or after the request, reply and termination notice travelling "
+         "unordered, connection loss cleaning the table, request timeout) is model-checked exhaustively: AtMostOne / ExactlyOneNotice / NoStaleRelation hold for the "
+         "repaired design and TLC must find the counterexample for the former one. The behaviours of that model are driven on two real nodes behind the relay: "
+         "link and monitor on pid / name / alias / event / node x fault (connection cut, node stopped forcefully or gracefully, target terminated with normal / kill / "
+         "custom reason, name / alias / event unregistered) x moment (relation established; request inside the relay; reply inside the relay) x 1-3 observers x pool "
+         "1-4, a request in flight, the requester descheduled at the req.wait yield point, and identifiers of an earlier incarnation used after a restart of either "
+         "node (send, important send, request, link, monitor, alias, exit, reply to an old request). spec/NetDown.tla judges every recorded case: exactly one notice "
+         "of the right kind and reason per holder, at most one for a refused request, nothing hangs beyond its timeout, stale identifiers are refused and reach nobody.",
+    note="Trusted: TLC, the relay. A stopping node may report the termination reason of its processes instead of 'no connection' (both accepted). Open known finding "
+         "P22e: remote event subscriptions still register after the reply. Proxy connections are not covered.",
+    tech="TLA+ model RemoteRel model-checked by TLC; fault cases recorded on two real nodes behind a holding relay validated by TLC against spec/NetDown.tla")
+
 NOT_YET = {
 }
 
